@@ -24,24 +24,11 @@
 (* Histories: a second phase rewrites one file (declarations added,        *)
 (* removed or replaced); the warnings of the current file must follow.     *)
 (***************************************************************************)
-EXTENDS Journal, Json
+EXTENDS Journal, Json, Text
 
 CONSTANTS Family
 
-(* ---- account names as text ------------------------------------------------------------------ *)
-RECURSIVE SplitAt(_, _, _, _)
-SplitAt(s, i, cur, acc) ==
-    IF i > Len(s) THEN Append(acc, cur)
-    ELSE IF SubSeq(s, i, i) = ":" THEN SplitAt(s, i + 1, "", Append(acc, cur))
-    ELSE SplitAt(s, i + 1, cur \o SubSeq(s, i, i), acc)
-Segs(s) == SplitAt(s, 1, "", <<>>)
-
-UpperL == <<"A","B","C","D","E","F","G","H","I","J","K","L","M","N","O","P","Q","R","S","T","U","V","W","X","Y","Z">>
-LowerL == <<"a","b","c","d","e","f","g","h","i","j","k","l","m","n","o","p","q","r","s","t","u","v","w","x","y","z">>
-LowerCh(c) == IF \E i \in 1..26 : UpperL[i] = c THEN LowerL[CHOOSE i \in 1..26 : UpperL[i] = c] ELSE c
-RECURSIVE LowerStr(_, _)
-LowerStr(s, i) == IF i > Len(s) THEN "" ELSE LowerCh(SubSeq(s, i, i)) \o LowerStr(s, i + 1)
-
+(* ---- account names as text: Segs, LowerStr live in Text.tla ------------------------------------- *)
 Standard == {"assets", "liabilities", "equity", "expenses", "revenues", "income"}
 
 IsBelow(acc, d) == LET a == Segs(acc) b == Segs(d) IN Len(b) < Len(a) /\ SubSeq(a, 1, Len(b)) = b
@@ -168,7 +155,9 @@ CommUsages == {
   << TxP(<< Post(1, <<A(5, 4)>>), Post(2, <<A(6, 7)>>), Post(3, <<>>) >>) >>,                       \* USD and "A B"
   << TxP(<< Post(1, <<Amt(5, 0, 0)>>), Post(3, <<>>) >>) >>,                                         \* no commodity
   << TxP(<< Post(1, <<A(5, 9)>>), Post(2, <<A(6, 8)>>), Post(3, <<>>) >>) >>,                       \* hours, "дуб 😀"
-  << TxP(<< Post(1, <<AL(5, 1)>>), Post(2, <<[AL(5, 1) EXCEPT !.neg = TRUE]>>) >>) >> }             \* $5 and -$5
+  << TxP(<< Post(1, <<AL(5, 1)>>), Post(2, <<[AL(5, 1) EXCEPT !.neg = TRUE]>>) >>) >>,              \* $5 and -$5
+  << TxP(<< Post(1, <<A(5, 4)>>), [Post(3, <<>>) EXCEPT !.asrt = Ast(A(100, 5))] >>) >>,             \* only in an assertion of a posting without amount
+  << TxP(<< [Post(1, <<>>) EXCEPT !.asrt = Ast(AL(7, 1))], [Post(3, <<>>) EXCEPT !.asrt = <<[strict |-> TRUE, a |-> A(100, 5)]>>] >>) >> }
 BigCommUsages == { u \in CommUsages : Len(u[1].posts) >= 3 /\ Len(u[1].posts[1].cost) = 1 /\ Len(u[1].posts[1].asrt) = 1 }
 
 BothTx == << TxOf(AcctClasses, 5), TxP(<< PC(1, A(1, 5), Cst(AL(2, 1)), Ast(AL(3, 3))), Post(2, <<A(4, 4)>>), Post(3, <<>>) >>) >>
